@@ -739,7 +739,7 @@ def gen_err(rng, tier):
     out = []
     for kind in (0, 1):
         for L in (0, 3):
-            for fault in range(1, 27):
+            for fault in range(1, 29):
                 poss = range(0, 9) if tier == "thorough" else sorted(set([0, 8, rng.randrange(1, 8), rng.randrange(1, 8)]))
                 for pos in poss:
                     out.append("err %d %d %d %d" % (kind, L, fault, pos))
